@@ -519,11 +519,12 @@ class BuiltinMixin:
             x, y = self.split(b, V.is_dict(recv))
             if x is not None:
                 self.unsupported(x, 'item assignment on an immutable dict value')
-            x2, y2 = self.split(y, z3.And(V.is_obj(recv), self.stubs.mapping_like(self, recv)))
-            if x2 is not None:
-                out.extend(self.stubs.mapping_setitem(self, x2, recv, k, v))
-            if y2 is not None:
-                out.extend(exc(y2, 'TypeError'))
+            if y is not None:
+                x2, y2 = self.split(y, z3.And(V.is_obj(recv), self.stubs.mapping_like(self, recv)))
+                if x2 is not None:
+                    out.extend(self.stubs.mapping_setitem(self, x2, recv, k, v))
+                if y2 is not None:
+                    out.extend(exc(y2, 'TypeError'))
         return out
 
     def dict_pop(self, st, recv, pos):
